@@ -107,6 +107,7 @@ type FuncContract struct {
 	DefPkg    string
 	GhostUpd  []GhostUpdate
 	GhostSrc  []string
+	Trusts    []Clause
 	Watches   []GhostUpdate
 	Lenient   bool
 	CallSites []CallSiteAssert
@@ -145,7 +146,7 @@ func newContractSet(pkg string) *ContractSet {
 
 var clauseKW = map[string]bool{"ghost": true, "pred": true, "fn": true, "axiom": true, "lemmadef": true, "onwrite": true, "onsend": true,
 	"opaque": true, "transparent": true, "lenient": true, "callsite": true, "func": true, "params": true, "requires": true, "ensures": true, "modifies": true, "loop": true, "use": true,
-	"inline": true, "assumed": true, "overflow": true, "safety": true, "pure": true, "effect": true, "watch": true}
+	"inline": true, "assumed": true, "overflow": true, "safety": true, "pure": true, "effect": true, "watch": true, "trusts": true}
 
 type rawClause struct {
 	kw   string
@@ -393,6 +394,14 @@ func loadContractFile(path string, prefixed bool, pkgPath string) (*ContractSet,
 				} else {
 					cur.Ensures = append(cur.Ensures, cl)
 				}
+			case "trusts":
+				// trusts EXPR: a postcondition callers may assume but that is NOT checked against the body
+				// (an assumption about the environment; listed in the trusted base)
+				e, err := parseSpec(rc.text)
+				if err != nil {
+					return nil, fmt.Errorf("%s: %v", where, err)
+				}
+				cur.Trusts = append(cur.Trusts, Clause{e, rc.text, rc.line})
 			case "modifies":
 				cur.HasMod = true
 				for _, p := range splitTop(rc.text) {
